@@ -28,17 +28,20 @@ extern "C" int clock_gettime(clockid_t id, struct timespec *ts) { if (!g_virt) r
 extern "C" int gettimeofday(struct timeval *tv, void *tz) { if (!g_virt) return (int)syscall(SYS_gettimeofday, tv, tz); if (tv) { tv->tv_sec = vnow / 1000; tv->tv_usec = (vnow % 1000) * 1000; } return 0; }
 static bool g_fail_next_wait = false;     // the next wait call of the back-end is interrupted by a signal: returns -1 / EINTR
 static void idle_hook();
+static bool spin_guard();
 // When the loop would block with nothing ready: first the model is asked whether any callable is still owed (a loop that goes to
 // sleep with work pending is a lost wake-up). Then, if a timer is armed, virtual time jumps past its deadline; otherwise an exit
 // request "arrives" (keeps the single-threaded run finite).
 extern "C" int epoll_wait(int epfd, struct epoll_event *ev, int maxev, int timeout) {
   if (g_w && g_fail_next_wait) { g_fail_next_wait = false; g_eintr++; errno = EINTR; return -1; }
+  if (g_w && spin_guard()) return 0;
   int n = (int)syscall(SYS_epoll_wait, epfd, ev, maxev, 0);
   if (n == 0 && timeout != 0 && g_w) idle_hook();
   return n;
 }
 extern "C" int select(int nfds, fd_set *r, fd_set *w, fd_set *e, struct timeval *tv) {
   if (g_w && g_fail_next_wait) { g_fail_next_wait = false; g_eintr++; errno = EINTR; return -1; }
+  if (g_w && spin_guard()) { if (r) FD_ZERO(r); if (w) FD_ZERO(w); if (e) FD_ZERO(e); return 0; }
   struct timeval z = {0, 0}; bool blocking = !(tv && tv->tv_sec == 0 && tv->tv_usec == 0);
   int n = (int)syscall(SYS_select, nfds, r, w, e, &z);
   if (n == 0 && blocking && g_w) idle_hook();
@@ -55,7 +58,7 @@ static const int ENTRY_TIMER = 3;   // a timer callback: not a deferred callable
 struct Task { int entry = 0; int beh = 0; int cnt = 0; Loop::RunId id = 0; int ran = 0; bool cancelled_ok = false; long order = 0; int parent = -1; };
 struct World {
   Loop *loop; std::deque<Task> t; long order = 0; std::string viol; bool in_pass = false; long exit_at = 0;
-  std::vector<TimerEvent *> timers; int armed = 0; bool delayed_exit = false; int jumps_in_pass = 0;
+  std::vector<TimerEvent *> timers; int armed = 0; bool delayed_exit = false; int jumps_in_pass = 0; long waits_in_pass = 0;
   bool owed(const Task &x) const { return x.entry != ENTRY_TIMER && !x.cancelled_ok && x.ran == 0; }
   int owed_count() const { int n = 0; for (auto &x : t) if (owed(x)) n++; return n; }
   int add(int entry, int beh, int parent, int cnt = 0) { Task nt; nt.entry = entry; nt.beh = beh; nt.parent = parent; nt.cnt = cnt; t.push_back(nt); return (int)t.size() - 1; }
@@ -100,6 +103,13 @@ struct World {
     }
   }
 };
+// harness protection: a pass over finitely many callables (at most ~1100 per history) must go idle; a loop that keeps finding
+// something ready for 20000 iterations is reported and told to exit instead of hanging the search
+static bool spin_guard() {
+  World &w = *g_w; if (++w.waits_in_pass < 20000) return false;
+  if (w.viol.empty()) w.viol = "loop-never-goes-idle-20000-iterations-in-one-pass";
+  w.loop->exitLoop(); return true;
+}
 static void idle_hook() {
   World &w = *g_w; g_idle_exits++;
   if (w.viol.empty()) for (auto &x : w.t) if (w.owed(x)) { w.viol = std::string("loop-sleeps-with-pending-callable-") + kN[x.entry]; break; }
@@ -114,7 +124,7 @@ static std::string show_op(const Op &o) { char b[48];
   return std::string(b); }
 
 static std::string run_history(const std::vector<Op> &h, std::string &viol) {
-  vnow = 1000000; g_virt = true; g_fail_next_wait = false;
+  vnow = 1000000; g_virt = true; g_fail_next_wait = false; alarm(60);     // watchdog: see main()
   World w; w.loop = Loop::New(engine); CommonLoop *cl = static_cast<CommonLoop *>(w.loop); g_w = &w;
   std::vector<int> top;   // indices of tasks submitted by top-level ops, in issue order
   for (auto &o : h) {
@@ -125,7 +135,7 @@ static std::string run_history(const std::vector<Op> &h, std::string &viol) {
       case CANCEL: if (o.a < (int)top.size()) w.do_cancel(top[o.a]); break;
       case CLEANUP: w.loop->cleanup(); break;   // public drain between runs; the property says nothing about what it must run, only that nothing is lost / doubled / reordered across it
       case PASS_FOREVER: case PASS_ONCE: {
-        long pass_start = w.order; w.exit_at = 0; w.jumps_in_pass = 0;
+        long pass_start = w.order; w.exit_at = 0; w.jumps_in_pass = 0; w.waits_in_pass = 0;
         w.loop->runNext([] {});            // so the back-end polls instead of sleeping
         g_fail_next_wait = (o.a == 1);
         w.in_pass = true; w.loop->runLoop(o.k == PASS_FOREVER ? Loop::Mode::kForever : Loop::Mode::kOnce); w.in_pass = false;
@@ -151,7 +161,7 @@ static std::string run_history(const std::vector<Op> &h, std::string &viol) {
   for (size_t i = 0; i < top.size() && i < 4; i++) { auto &x = w.t[top[i]]; c += (x.cancelled_ok ? 'c' : x.ran ? 'r' : 'p'); }
   if (vf_any_missing()) { c += "|ops:"; for (size_t i = h.size() > 3 ? h.size() - 3 : 0; i < h.size(); i++) c += show_op(h[i]) + ","; }
   for (auto *te : w.timers) delete te;
-  delete w.loop; g_w = nullptr; g_virt = false;     // destruction runs whatever is still pending
+  delete w.loop; g_w = nullptr; g_virt = false; alarm(0);     // destruction runs whatever is still pending
   if (w.viol.empty()) {
     long last[3] = {0, 0, 0};
     for (auto &x : w.t) { if (x.entry == ENTRY_TIMER) { if (x.ran > 1) w.viol = "one-shot-timer-fired-twice"; continue; }
@@ -166,6 +176,7 @@ static std::string run_history(const std::vector<Op> &h, std::string &viol) {
 int main(int argc, char **argv) {
   engine = argc > 1 ? argv[1] : "epoll"; size_t depth = argc > 2 ? atoi(argv[2]) : 5; size_t sdepth = argc > 3 ? atoi(argv[3]) : 3;
   hx::install_crash_reporter("C01-crash");
+  signal(SIGALRM, [](int) { hx::emit_crash("history-did-not-terminate-within-60s"); _exit(1); });   // a single history takes milliseconds; never hang the check
   double deadline = hx::deadline_from_env(600);
   // size lanes first (small, bounded): N callables in one generation
   for (int n : {1, 99, 100, 101, 102, 201, 1000}) {
@@ -190,7 +201,7 @@ int main(int argc, char **argv) {
       if (any) m.push_back({CANCEL, 0});
       m.push_back({PASS_FOREVER, 0}); m.push_back({PASS_ONCE, 0}); m.push_back({PASS_ONCE, 1}); m.push_back({CLEANUP, 0});
       return m; };
-    g_chain_n = n; g_bulk_n = 3; ex.explore(sdepth);
+    g_chain_n = n; g_bulk_n = 3; ex.explore(sdepth + 1);
   }
   {
     hx::Explorer<Op> ex; ex.name = engine; ex.deadline_s = deadline; ex.show = show_op; ex.run = run_history;
